@@ -17,7 +17,7 @@ RULE = ("case = 1-5 servers (TCP host:port and UNIX paths, each its own memcache
         "command for key k arrives at place(node names, routing key of k) and nowhere else; a multi-key call "
         "delivers each requested key to exactly one server exactly once; get_many(keys) == {k: get(k)} for present "
         "keys (likewise gets); everything written by set / set_many is found by each single-key reader and mutator. "
-        "Non-trivial: >= 2 servers each owning >= 1 of the keys and >= 1 multi-key call.")
+        "Also multi-key calls listing the same bare key under different server keys (each entry must reach its own server; the merged value is unspecified and not judged). Non-trivial: >= 2 servers each owning >= 1 of the keys and >= 1 multi-key call.")
 MANIFEST = {
     "category": "exploration",
     "technique": "Hypothesis-generated server sets, key sets and operation scripts over several memcached models behind one fake network; per-server command logs compared with an independent rendezvous/murmur3 reference, plus metamorphic agreement between multi-key and single-key operations",
@@ -133,6 +133,22 @@ def check(case):
                 expect_only_at(k, "gets")
                 if gsm.get(inner(k)) != g or g[0] != vals[i]:
                     raise Violation(["gets_many-differs"], "gets_many[%r] = %r, gets = %r; %s" % (k, gsm.get(inner(k)), g, desc))
+        # the same bare key under different server keys: each (server_key, key) entry of ONE multi-key call must
+        # still reach its own server (which value wins in the merged answer is not specified, so only routing is judged)
+        for bare, sks in case.get("dups", []):
+            entries = [(sk, bare) for sk in sks]
+            if len({owner(e) for e in entries}) < 2:
+                continue
+            for e in entries:
+                call(hc.set, e, b"dup")
+                new_cmds()
+            call(hc.get_many, list(entries))
+            multi_calls += 1
+            _check_multi(new_cmds(), entries, wire, owner, "get_many(same key, different server keys)", desc)
+            call(hc.gets_many, list(entries) + [bare])
+            _check_multi(new_cmds(), entries + [bare], wire, owner, "gets_many(same key, different server keys)", desc)
+            call(hc.delete_many, list(entries))
+            _check_multi(new_cmds(), entries, wire, owner, "delete_many(same key, different server keys)", desc)
         # single-key mutators find what set / set_many wrote
         script = case.get("script", [])
         alive = {i: True for i in range(len(keys))}
@@ -254,8 +270,10 @@ def case_strategy(tier):
     keys2 = st.builds(pairify, keys, st.lists(st.booleans(), max_size=7), st.lists(keytext, min_size=1, max_size=5))
     script = st.lists(st.fixed_dictionaries({"i": st.integers(0, 60), "op": st.sampled_from(
         ["incr", "decr", "touch", "gat", "gats", "append", "prepend", "replace", "add", "cas", "delete", "get"])}), max_size=12)
+    dups = st.lists(st.tuples(st.sampled_from(["dup\x7fkey", "d\x7f2", "\x7fx"]), st.lists(st.sampled_from(["tenant-a", "tenant-b", "sk3", "sk4", "zz"]), min_size=2, max_size=4, unique=True)).map(list),
+                    max_size=2)
     return st.fixed_dictionaries({"addrs": servers, "pooling": st.booleans(), "prefix": st.sampled_from([b"", b"", b"p:", b"\xffns/"]),
-                                  "keys": keys2, "script": script})
+                                  "keys": keys2, "script": script, "dups": dups})
 
 
 def grid_cases(tier, seed):
@@ -267,7 +285,8 @@ def grid_cases(tier, seed):
             keys = [("sk%d" % (i % 4), k) if i % 5 == 0 else k for i, k in enumerate(keys)]
             yield {"addrs": SERVER_POOL[:n - 1] + [SERVER_POOL[-1]], "pooling": pooling, "prefix": b"g:" if n % 2 else b"",
                    "keys": keys, "script": [{"i": i, "op": op} for i, op in enumerate(
-                       ["incr", "touch", "gat", "append", "cas", "delete", "add", "decr", "gats", "prepend", "replace", "get"])]}
+                       ["incr", "touch", "gat", "append", "cas", "delete", "add", "decr", "gats", "prepend", "replace", "get"])],
+                   "dups": [["dup\x7fkey", ["tenant-a", "tenant-b", "sk3", "sk4"]], ["d\x7f2", ["a", "b", "c", "d", "e"]]]}
 
 
 PARTS = [
